@@ -51,6 +51,13 @@ func Alphabet() []Sym {
 		{Name: "LogonGood", LogonClass: LogonGood, Type: "A", Build: good(0)},
 		{Name: "LogonGoodMinHb", LogonClass: LogonGood, Type: "A", Build: good(1)},
 		{Name: "LogonGoodMaxHb", LogonClass: LogonGood, Type: "A", Build: good(2)},
+		{Name: "LogonGoodOtherCompIDs", LogonClass: LogonGood, Type: "A", Build: func(p *Peer, lim [2]int) []byte {
+			// a well-formed, acceptable Logon that names other parties and another interval
+			q := &Peer{Sender: "MALLORY", Target: "ELSEWHERE", Seq: p.Seq}
+			m := q.Logon(lim[0]+1, "0", fixref.F(TUser, "user"), fixref.F(TPass, "pw"))
+			p.Seq = q.Seq
+			return m
+		}},
 		{Name: "LogonHbBelowMin", LogonClass: LogonHbLow, Type: "A", Build: func(p *Peer, lim [2]int) []byte {
 			return p.Logon(lim[0]-1, "0", fixref.F(TUser, "user"), fixref.F(TPass, "pw"))
 		}},
